@@ -118,4 +118,7 @@ TraceLimit == ser.accepted <=> (ser.rawlen <= ser.limit)
    recovered rec *)
 TraceParse == /\ raw = EncMsg(c.m, c.le, c.sigpos)
               /\ rec = ProjectK(c.m)
+(* any bytes the reference parser accepts - e.g. with flag bits set that this version of the protocol does not
+   define - handed to the implementation's parser: it recovers what the reference parser recovers *)
+TraceParseAny == rec = RecoveredK(raw)
 =============================================================================
